@@ -71,7 +71,7 @@ fn step(run: &mut Run, r: &mut Rng, miri: bool) -> Result<(), String> {
     match r.below(33) {
         0..=7 => {
             let v = gen_val(r);
-            run.hist.push(format!("insert {} <- {} bytes", vmon_core::hex(&k), v.len()));
+            run.hist.push(format!("insert {} <- {} bytes", hx(&k), v.len()));
             let inner = run.state.get_inner(&mut run.loader);
             let mut t = inner.lock();
             let res = t.insert(&mut run.loader, &k, v.clone());
@@ -87,7 +87,7 @@ fn step(run: &mut Run, r: &mut Rng, miri: bool) -> Result<(), String> {
             run.keys.push(k);
         }
         8..=11 => {
-            run.hist.push(format!("delete {}", vmon_core::hex(&k)));
+            run.hist.push(format!("delete {}", hx(&k)));
             let inner = run.state.get_inner(&mut run.loader);
             let mut t = inner.lock();
             let res = t.delete(&mut run.loader, &k);
@@ -108,7 +108,7 @@ fn step(run: &mut Run, r: &mut Rng, miri: bool) -> Result<(), String> {
             let got = look(&mut run.state, &mut run.loader, &k);
             run.reads += 1;
             if got.as_ref() != run.model.get(&k) {
-                return Err(fail(run, format!("lookup of {} gives {:?}, model {:?}", vmon_core::hex(&k), got.map(|x| x.len()), run.model.get(&k).map(|x| x.len()))));
+                return Err(fail(run, format!("lookup of {} gives {:?}, model {:?}", hx(&k), got.map(|x| x.len()), run.model.get(&k).map(|x| x.len()))));
             }
         }
         15 | 16 => {
@@ -119,7 +119,7 @@ fn step(run: &mut Run, r: &mut Rng, miri: bool) -> Result<(), String> {
             if let Some(e) = t.get_entry(&mut run.loader, &k) {
                 let ok = t.set(e, v.clone()).is_some();
                 drop(t);
-                run.hist.push(format!("set {} <- {} bytes", vmon_core::hex(&k), v.len()));
+                run.hist.push(format!("set {} <- {} bytes", hx(&k), v.len()));
                 if !run.model.contains_key(&k) {
                     return Err(fail(run, "get_entry found a key that the model does not have".into()));
                 }
@@ -130,7 +130,7 @@ fn step(run: &mut Run, r: &mut Rng, miri: bool) -> Result<(), String> {
             } else {
                 drop(t);
                 if run.model.contains_key(&k) {
-                    return Err(fail(run, format!("get_entry does not find {} which the model has", vmon_core::hex(&k))));
+                    return Err(fail(run, format!("get_entry does not find {} which the model has", hx(&k))));
                 }
             }
         }
@@ -160,13 +160,13 @@ fn step(run: &mut Run, r: &mut Rng, miri: bool) -> Result<(), String> {
                         if v != mv {
                             let (a, b) = (v.len(), mv.len());
                             drop(t);
-                            return Err(fail(run, format!("get_mut of {} exposes {} bytes that differ from the model's {} bytes", vmon_core::hex(&k), a, b)));
+                            return Err(fail(run, format!("get_mut of {} exposes {} bytes that differ from the model's {} bytes", hx(&k), a, b)));
                         }
                         match action {
                             0 => {
                                 v.resize(newlen, byte);
                                 mv.resize(newlen, byte);
-                                desc = format!("get_mut {} resize to {}", vmon_core::hex(&k), newlen);
+                                desc = format!("get_mut {} resize to {}", hx(&k), newlen);
                             }
                             1 => {
                                 if !v.is_empty() {
@@ -174,12 +174,12 @@ fn step(run: &mut Run, r: &mut Rng, miri: bool) -> Result<(), String> {
                                     v[i] = byte;
                                     mv[i] = byte;
                                 }
-                                desc = format!("get_mut {} write one byte", vmon_core::hex(&k));
+                                desc = format!("get_mut {} write one byte", hx(&k));
                             }
                             _ => {
                                 v.push(byte);
                                 mv.push(byte);
-                                desc = format!("get_mut {} append", vmon_core::hex(&k));
+                                desc = format!("get_mut {} append", hx(&k));
                             }
                         }
                     }
@@ -191,7 +191,7 @@ fn step(run: &mut Run, r: &mut Rng, miri: bool) -> Result<(), String> {
         }
         #[cfg(concordium_base_verif)]
         20 | 21 => {
-            run.hist.push(format!("delete_prefix {}", vmon_core::hex(&k)));
+            run.hist.push(format!("delete_prefix {}", hx(&k)));
             let inner = run.state.get_inner(&mut run.loader);
             let mut t = inner.lock();
             let res = t.verif_delete_prefix(&mut run.loader, &k);
@@ -220,7 +220,7 @@ fn step(run: &mut Run, r: &mut Rng, miri: bool) -> Result<(), String> {
                 Ok(None) => {
                     drop(t);
                     if run.model.keys().any(|x| x.starts_with(&k)) {
-                        return Err(fail(run, format!("iterator over {} does not exist although the model has keys there", vmon_core::hex(&k))));
+                        return Err(fail(run, format!("iterator over {} does not exist although the model has keys there", hx(&k))));
                     }
                     return Ok(());
                 }
@@ -252,7 +252,7 @@ fn step(run: &mut Run, r: &mut Rng, miri: bool) -> Result<(), String> {
                         }
                     };
                     if !ok {
-                        err = Some(format!("writing through the entry the iterator yielded for {} failed", vmon_core::hex(&key)));
+                        err = Some(format!("writing through the entry the iterator yielded for {} failed", hx(&key)));
                         break;
                     }
                     writes.push((key, v));
@@ -266,10 +266,10 @@ fn step(run: &mut Run, r: &mut Rng, miri: bool) -> Result<(), String> {
             if !deleted {
                 return Err(fail(run, "deleting the iterator reported that it did not exist".into()));
             }
-            run.hist.push(format!("iterate {} and write through {} yielded entries", vmon_core::hex(&k), writes.len()));
+            run.hist.push(format!("iterate {} and write through {} yielded entries", hx(&k), writes.len()));
             for (key, v) in writes {
                 if !run.model.contains_key(&key) {
-                    return Err(fail(run, format!("iterator yielded key {} which the model does not have", vmon_core::hex(&key))));
+                    return Err(fail(run, format!("iterator yielded key {} which the model does not have", hx(&key))));
                 }
                 run.model.insert(key, v);
                 run.iter_writes += 1;
@@ -362,6 +362,11 @@ pub fn run(ctx: &ChildCtx, sh: &mut Shard) {
     for idx in ctx.indices() {
         ctx.begin_case(idx);
         let mut r = ctx.case_rng(idx);
+        let huge = !miri && ctx.san.is_empty() && r.chance(1, 150);
+        HUGE_KEYS.store(huge, std::sync::atomic::Ordering::Relaxed);
+        if huge {
+            sh.hit("histories.huge_keys");
+        }
         let nops = if miri { 6 + r.below(14) } else { 10 + r.below(7) * 60 + r.below(40) };
         let mut run = Run {
             store: vec![],
@@ -432,6 +437,6 @@ pub fn run(ctx: &ChildCtx, sh: &mut Shard) {
                 sh.violate(idx, "panic", format!("c03:panic:{:016x}", h), format!("the trie panicked: {}\nhistory:\n  {}", p, run.hist.log.join("\n  ")), json!({"history": run.hist.log}));
             }
         }
-        sh.sample(|| json!({"history": run.hist.log.iter().take(60).collect::<Vec<_>>(), "final_model_keys": run.model.keys().take(20).map(|k| vmon_core::hex(k)).collect::<Vec<_>>()}));
+        sh.sample(|| json!({"history": run.hist.log.iter().take(60).collect::<Vec<_>>(), "final_model_keys": run.model.keys().take(20).map(|k| hx(k)).collect::<Vec<_>>()}));
     }
 }
